@@ -1,5 +1,49 @@
-(* C10 has no case language of its own: its run-time half replays the workloads of every other
-   property with the verification hooks enabled (tools/props/c10.py). *)
-From Coq Require Import List.
-From EasyML Require Import Base.Sx.
-Definition run_c10 (args : list sx) : sx := bad_case.
+(* C10 own cases: a user closure / iterator panics in the middle of a mutating call, the panic is
+   caught and the object is used again.
+   (10 1 rows cols k)               Matrix::map_mut, closure panics on call k+1
+   (10 2 rows cols k)               Matrix::map_mut_with_index
+   (10 3 rows cols row vals k)      Matrix::insert_row_with, iterator panics on next() k+1
+   (10 4 rows cols column vals k)   Matrix::insert_column_with
+   (10 5 lens k)                    Tensor::map_mut       (shape lens, data iota)
+   (10 6 lens k)                    Tensor::map_mut_with_index
+   result: (panicked? rows cols (elements…)) resp. (panicked? (elements…)).
+   All other C10 workloads are the other properties' cases replayed with the hooks on. *)
+From Coq Require Import List ZArith NArith Bool Arith.
+From EasyML Require Import Base.Sx Model.PanicSafety.
+Import ListNotations.
+
+Definition iotaZ (n : nat) : list Z := map Z.of_nat (seq 0 n).
+Definition smstate (p : mstate * bool) : sx :=
+  SL [sbool (snd p); snat (m_rows (fst p)); snat (m_cols (fst p)); slist SZ (m_data (fst p))].
+
+Definition run_c10 (args : list sx) : sx :=
+  match args with
+  | [SZ op; rows; cols; k] =>
+      match dnat rows, dnat cols, dnat k with
+      | Some rows, Some cols, Some k =>
+          if ((op =? 1) || (op =? 2))%Z then
+            let r := map_mut_panic (iotaZ (rows * cols)) k in
+            smstate (mkM rows cols (fst r), snd r)
+          else bad_case
+      | _, _, _ => bad_case
+      end
+  | [SZ op; rows; cols; pos; vals; k] =>
+      match dnat rows, dnat cols, dnat pos, dlist dZ vals, dnat k with
+      | Some rows, Some cols, Some pos, Some vals, Some k =>
+          let s := mkM rows cols (iotaZ (rows * cols)) in
+          if (op =? 3)%Z then smstate (insert_row_with_panic s pos vals k)
+          else if (op =? 4)%Z then smstate (insert_column_with_panic s pos vals k)
+          else bad_case
+      | _, _, _, _, _ => bad_case
+      end
+  | [SZ op; lens; k] =>
+      match dlist dnat lens, dnat k with
+      | Some lens, Some k =>
+          if ((op =? 5) || (op =? 6))%Z then
+            let r := map_mut_panic (iotaZ (fold_right Nat.mul 1%nat lens)) k in
+            SL [sbool (snd r); slist SZ (fst r)]
+          else bad_case
+      | _, _ => bad_case
+      end
+  | _ => bad_case
+  end.
